@@ -21,6 +21,7 @@ import importlib
 import inspect
 import itertools
 import random
+import re
 import sys
 
 from vf.core.util import case_watchdog, tmp_tree
@@ -38,7 +39,11 @@ RULE = ("seeded hierarchies of 2..5 classes C0..C4 (each with <=2 bases among ea
         "hand-written __init__ / undecorated), a decorator spelling among {@dataclass, @dataclass(), @dataclasses.dataclass, "
         "@dc, @d.dataclass} with random init/kw_only/frozen arguments, 0..5 fields drawn from {x: T, x: T = v, field(), "
         "field(default=), field(default_factory=), field(init=False), field(kw_only=True|False), field(repr=..), InitVar, "
-        "ClassVar, '_: KW_ONLY'} (35%: one field overrides an inherited one; 30% of the decorated classes bind the name of one of "
+        "ClassVar, '_: KW_ONLY'}; every module decides on its own (35%) to postpone the evaluation of annotations (from __future__ import "
+        "annotations); annotations are spelled plainly, through module / name aliases (typing. t. dataclasses. d. CV IV KW), with a quoted "
+        "argument, wholly quoted (ClassVar/InitVar/KW_ONLY 30%, ordinary types 20%; 12% of those with extra blanks or a trailing '| None'), "
+        "as Final / Optional / Annotated types, or as ordinary types that mention or nest the special forms (12%) "
+        "(35%: one field overrides an inherited one; 30% of the decorated classes bind the name of one of "
         "their fields a second - 4%: third - time, anywhere after or before the declaration and on either side of the KW_ONLY marker: "
         "a second declaration of any field form, a bare annotation, plain / chained / unpacking / augmented assignment, an "
         "assigned field() call, def, property, nested class, del), plus properties, unannotated attributes, methods, "
@@ -52,7 +57,8 @@ LEVEL_TEXT = ("For every generated hierarchy the classes CPython accepts are com
               "'dataclass' label. Discrepancies are first passed through two mechanism classifiers (transformations of CPython's "
               "signature that reproduce a listed defect exactly); anything else is a violation.")
 LEVEL_NOTE = ("trusted: CPython 3.12 dataclasses + inspect.signature; default *values* are not compared (C02/C03 cover expressions), "
-              "only required-ness; conditional re-binding (if / try in a class body) is not generated; string annotations / from __future__ import annotations are not generated; for dataclasses "
+              "only required-ness; annotations only use names the module really imports (a string annotation naming an unknown module or a "
+              "look-alike ClassVar is not generated); conditional re-binding (if / try in a class body) is not generated; for dataclasses "
               "without an own __init__ (init=False, undecorated subclasses) only the effective signature (Class.parameters vs the "
               "inherited __init__) is judged, not the presence of a member")
 TECHNIQUE = "runtime monitoring: differential oracle against CPython's dataclasses/inspect on the same source, after a real GriffeLoader load"
@@ -63,7 +69,10 @@ REQUIRED_COUNTERS = ["classes_accepted_by_cpython", "generated_inits_compared", 
                      "cross_package_inherited_initvar_inits_compared", "cross_package_inherited_inits_compared",
                      "generated_inits_with_base_in_later_module_compared", "classes_with_rebound_field_compared",
                      "fields_rebound_across_kw_only_marker_compared", "generated_inits_inheriting_rebound_field_compared",
-                     "classes_with_rebound_field_in_sessions_compared"]
+                     "classes_with_rebound_field_in_sessions_compared", "classes_under_postponed_evaluation_compared",
+                     "quoted_special_form_annotations_postponed_compared", "quoted_special_form_annotations_evaluated_compared",
+                     "special_forms_through_module_or_name_alias_compared", "ordinary_annotations_mentioning_special_forms_compared",
+                     "generated_inits_mixing_evaluation_modes_compared"]
 EXHAUSTIVE = {"quick": False, "thorough": False}
 ASSUMPTIONS = ["CPython 3.12's dataclasses module is the reference; classes it rejects (TypeError/ValueError at class creation) are outside the domain",
                "hierarchies are sampled (seeded); only the 9 init/kw_only decorator combinations are enumerated exhaustively (on the last class)",
@@ -86,7 +95,8 @@ F_RBDEF = "C18-field-rebound-by-def-or-class-dropped"
 F_DEL = "C18-del-of-field-default-ignored"
 F_RBLABELS = "C18-redeclared-field-keeps-merged-labels"
 F_UNPACK = "C18-default-bound-by-unpacking-assignment-ignored"
-ALL_FINDINGS = [F_BARE, F_KWFALSE, F_OVERRIDE, F_INITFALSE, F_DIAMOND, F_BARECV, F_INHDEF, F_LABEL, F_RBPOS, F_RBBARE, F_RBDEF, F_DEL, F_RBLABELS, F_UNPACK]
+F_STRPREFIX = "C18-string-annotation-special-form-by-prefix"
+ALL_FINDINGS = [F_BARE, F_KWFALSE, F_OVERRIDE, F_INITFALSE, F_DIAMOND, F_BARECV, F_INHDEF, F_LABEL, F_RBPOS, F_RBBARE, F_RBDEF, F_DEL, F_RBLABELS, F_UNPACK, F_STRPREFIX]
 
 KIND = {inspect.Parameter.POSITIONAL_ONLY: "positional-only", inspect.Parameter.POSITIONAL_OR_KEYWORD: "positional or keyword",
         inspect.Parameter.VAR_POSITIONAL: "variadic positional", inspect.Parameter.KEYWORD_ONLY: "keyword-only",
@@ -104,12 +114,95 @@ def _field_kwargs(value) -> dict | None:  # noqa: ANN001
     return None
 
 
+SPECIAL_FORMS = {"typing.ClassVar": "ClassVar", "dataclasses.InitVar": "InitVar", "dataclasses.KW_ONLY": "KW_ONLY"}
+_MODULE_IDENTIFIER = re.compile(r"^(?:\s*(\w+)\s*\.)?\s*(\w+)")     # the documented heuristic of dataclasses for annotations that are strings
+
+
+def module_context(tree: ast.Module) -> dict:
+    """What decides the meaning of an annotation in a module: postponed evaluation, and what the module-level names are bound to."""
+    future = any(isinstance(n, ast.ImportFrom) and n.module == "__future__" and any(a.name == "annotations" for a in n.names) for n in tree.body)
+    imports: dict[str, str] = {}
+    for n in tree.body:
+        if isinstance(n, ast.Import):
+            for a in n.names:
+                if a.asname:
+                    imports[a.asname] = a.name
+                else:
+                    imports[a.name.split(".")[0]] = a.name.split(".")[0]
+        elif isinstance(n, ast.ImportFrom) and not n.level and n.module:
+            for a in n.names:
+                imports[a.asname or a.name] = f"{n.module}.{a.name}"
+    return {"future": future, "imports": imports}
+
+
+def _resolved(expr: ast.expr, imports: dict[str, str]) -> str | None:
+    """`t.ClassVar` -> 'typing.ClassVar' (names and attribute chains only)."""
+    parts = []
+    while isinstance(expr, ast.Attribute):
+        parts.append(expr.attr)
+        expr = expr.value
+    if not isinstance(expr, ast.Name) or expr.id not in imports:
+        return None
+    return ".".join([imports[expr.id], *reversed(parts)])
+
+
+def _structural_form(expr: ast.expr, imports: dict[str, str]) -> tuple[str | None, bool]:
+    """(special form, subscripted) of an annotation *expression*: what the evaluated object is for dataclasses."""
+    if isinstance(expr, ast.Subscript):
+        form = SPECIAL_FORMS.get(_resolved(expr.value, imports) or "")
+        return (form if form in ("ClassVar", "InitVar") else None), True
+    return SPECIAL_FORMS.get(_resolved(expr, imports) or ""), False
+
+
+def annotation_reading(node: ast.expr, ctx: dict) -> dict:
+    """How an annotation is read.
+
+    form: by CPython's dataclasses - the evaluated object when the annotation is evaluated; the leading `[module.]name` of the
+    *stored string* (the text of the annotation under postponed evaluation, the literal's value otherwise) looked up in the module.
+    parsed_form / subscripted: by a reader that parses the expression (a wholly quoted annotation: its content, unless the
+    evaluation is postponed - then it stays a string); quoted: the annotation is one string literal."""
+    imports = ctx["imports"]
+    literal = isinstance(node, ast.Constant) and isinstance(node.value, str)
+    stored = ast.unparse(node) if ctx["future"] else node.value if literal else None
+    if stored is None:
+        form = _structural_form(node, imports)[0]
+    else:
+        form = None
+        m = _MODULE_IDENTIFIER.match(stored)
+        if m:
+            prefix, name = m.groups()
+            if prefix is None:
+                form = SPECIAL_FORMS.get(imports.get(name, ""))
+            elif imports.get(prefix) in ("typing", "dataclasses"):
+                form = SPECIAL_FORMS.get(f"{imports[prefix]}.{name}")
+    effective = node
+    if literal:
+        effective = None
+        if not ctx["future"]:
+            try:
+                effective = ast.parse(node.value, mode="eval").body
+            except SyntaxError:
+                effective = None
+    parsed_form, subscripted = _structural_form(effective, imports) if effective is not None else (None, False)
+    inner_form = None
+    if literal:
+        try:
+            inner_form = _structural_form(ast.parse(node.value.strip(), mode="eval").body, imports)[0]
+        except SyntaxError:
+            inner_form = None
+    dotted = effective.value if isinstance(effective, ast.Subscript) else effective
+    spelled = ast.unparse(dotted) if isinstance(dotted, (ast.Name, ast.Attribute)) else None
+    return {"form": form, "parsed_form": parsed_form, "subscripted": subscripted, "quoted": literal, "quoted_form": inner_form,
+            "aliased": (parsed_form or form) is not None and spelled is not None and spelled.split(".")[0] in ("t", "d", "CV", "IV", "KW")}
+
+
 PROPERTY_DECORATORS = ("property", "cached_property", "functools.cached_property")
 
 
-def bindings_of(node: ast.ClassDef) -> list[dict]:
+def bindings_of(node: ast.ClassDef, ctx: dict) -> list[dict]:
     """Every statement of the class body that binds / unbinds a plain name, in order:
-    {kind: ann | assign | aug | def | property | class | del, name, ann, valued, field_kwargs, unpacked (target of `a, b = ...`)}."""
+    {kind: ann | assign | aug | def | property | class | del, name, ann, valued, field_kwargs, unpacked (target of `a, b = ...`)};
+    annotations also carry their reading (see annotation_reading)."""
     out: list[dict] = []
 
     def add(kind: str, name: str, ann: str | None = None, valued: bool = False, fk: dict | None = None, unpacked: bool = False) -> None:  # noqa: FBT001, FBT002, PLR0913
@@ -118,6 +211,7 @@ def bindings_of(node: ast.ClassDef) -> list[dict]:
     for st in node.body:
         if isinstance(st, ast.AnnAssign) and isinstance(st.target, ast.Name):
             add("ann", st.target.id, ast.unparse(st.annotation), st.value is not None, _field_kwargs(st.value))
+            out[-1].update(annotation_reading(st.annotation, ctx))
         elif isinstance(st, ast.Assign):
             for tgt in st.targets:
                 if isinstance(tgt, ast.Name):
@@ -152,21 +246,20 @@ def rebound_fields(fc: dict) -> dict[str, list[dict]]:
 def binding_form(b: dict) -> str:
     if b["kind"] != "ann":
         return ("unpack" if b["unpacked"] else b["kind"]) + ("=field" if b["field_kwargs"] is not None else "")
-    head = b["ann"].split("[")[0].split(".")[-1]
-    return "ann" + (":" + head if head in ("ClassVar", "InitVar", "KW_ONLY") else "") + (
+    return "ann" + (":" + b["form"] if b["form"] else "") + (
         "=field" if b["field_kwargs"] is not None else "=" if b["valued"] else "")
 
 
 def analyse(files: dict[str, str]) -> dict[str, dict]:
-    """class name -> {decorated, dec_kwargs, fields: [{name, ann, value, field_kwargs, after_marker}], bindings, init_span}."""
+    """class name -> {decorated, dec_kwargs, postponed, bindings, fields: the annotated bindings + after_marker, init_span}."""
     out: dict[str, dict] = {}
 
-    def visit(body, rel):  # noqa: ANN001, ANN202
+    def visit(body, rel, ctx):  # noqa: ANN001, ANN202
         for node in body:
             if not isinstance(node, ast.ClassDef):
                 continue
             info = {"file": rel, "decorated": False, "dec_kwargs": {}, "dec_text": None, "fields": [], "init_span": None, "lineno": node.lineno,
-                    "bindings": bindings_of(node)}
+                    "bindings": bindings_of(node, ctx), "postponed": ctx["future"]}
             for dec in node.decorator_list:
                 callee = dec.func if isinstance(dec, ast.Call) else dec
                 if ast.unparse(callee) in DATACLASS_CALLEES:
@@ -175,23 +268,19 @@ def analyse(files: dict[str, str]) -> dict[str, dict]:
                     if isinstance(dec, ast.Call):
                         info["dec_kwargs"] = {k.arg: ast.unparse(k.value) for k in dec.keywords}
             marker = False
+            for b in info["bindings"]:
+                if b["kind"] == "ann":
+                    marker = marker or b["form"] == "KW_ONLY"
+                    info["fields"].append({**b, "after_marker": marker})
             for st in node.body:
-                if isinstance(st, ast.AnnAssign) and isinstance(st.target, ast.Name):
-                    ann = ast.unparse(st.annotation)
-                    if ann in ("KW_ONLY", "dataclasses.KW_ONLY"):
-                        marker = True
-                        info["fields"].append({"name": st.target.id, "ann": ann, "value": None, "field_kwargs": None, "after_marker": marker})
-                        continue
-                    fk = _field_kwargs(st.value)
-                    info["fields"].append({"name": st.target.id, "ann": ann, "value": ast.unparse(st.value) if st.value else None,
-                                           "field_kwargs": fk, "after_marker": marker})
-                elif isinstance(st, ast.FunctionDef) and st.name == "__init__":
+                if isinstance(st, ast.FunctionDef) and st.name == "__init__":
                     info["init_span"] = [st.lineno, st.end_lineno]
             out[node.name] = info
-            visit(node.body, rel)
+            visit(node.body, rel, ctx)
 
     for rel, src in files.items():
-        visit(ast.parse(src).body, rel)
+        tree = ast.parse(src)
+        visit(tree.body, rel, module_context(tree))
     return out
 
 
@@ -218,6 +307,13 @@ def describe_class(cls) -> dict:  # noqa: ANN001
     return info
 
 
+def future_flags(tree: ast.Module) -> int:
+    """compile() flags that make one statement of a module behave as it does inside the module (postponed annotations)."""
+    import __future__
+
+    return __future__.annotations.compiler_flag if module_context(tree)["future"] else 0
+
+
 def cpython_view(files: dict[str, str], package: str, rec) -> dict[str, dict] | None:  # noqa: ANN001
     """class name -> description; rejected classes -> {'accepted': False}.  None: the package cannot be imported at all."""
     out: dict[str, dict] = {}
@@ -229,8 +325,11 @@ def cpython_view(files: dict[str, str], package: str, rec) -> dict[str, dict] | 
         sys.modules[mod.__name__] = mod
         ns = mod.__dict__
         try:
-            for node in ast.parse(files["m.py"]).body:
-                code = compile(ast.Module([node], []), "<c18>", "exec")
+            tree = ast.parse(files["m.py"])
+            flags = future_flags(tree)
+            for node in tree.body:
+                # (dont_inherit: this very module postpones the evaluation of its annotations; the generated one decides for itself)
+                code = compile(ast.Module([node], []), "<c18>", "exec", flags=flags, dont_inherit=True)
                 try:
                     exec(code, ns)  # noqa: S102
                 except Exception as exc:  # noqa: BLE001
@@ -374,6 +473,7 @@ def cpython_view_statementwise(files: dict[str, str], rec) -> dict[str, dict]:  
                 setattr(mods[parent], short, mod)
         for name in order:
             ns = mods[name].__dict__
+            flags = future_flags(trees[name])
             body = []
             for node in trees[name].body:      # `from x import A, B` -> one statement per name: a rejected class only takes itself away
                 if isinstance(node, ast.ImportFrom) and len(node.names) > 1:
@@ -381,7 +481,7 @@ def cpython_view_statementwise(files: dict[str, str], rec) -> dict[str, dict]:  
                 else:
                     body.append(node)
             for node in body:
-                code = compile(ast.Module([node], []), f"<c18:{name}>", "exec")
+                code = compile(ast.Module([node], []), f"<c18:{name}>", "exec", flags=flags, dont_inherit=True)
                 try:
                     exec(code, ns)  # noqa: S102
                 except Exception as exc:  # noqa: BLE001
@@ -471,12 +571,19 @@ SWITCHES = [
     ("del_ignored", F_DEL),             # `del x` in the class body is ignored: the deleted default stays
     ("labels_merged", F_RBLABELS),      # ClassVar-ness / property-ness follow the merged labels of every declaration, not the last annotation
     ("unpacking_ignored", F_UNPACK),    # `x, y = 1, 2` binds nothing (tuple / list targets are not visited)
+    # an annotation that dataclasses reads as a *string* (a string literal, or any annotation under postponed evaluation)
+    ("parsed_reading", F_STRPREFIX),    # is ClassVar / InitVar / KW_ONLY iff the parsed expression is one, not iff the text starts with one
 ]
 REBIND_SWITCHES = {"rebind_position", "bare_forgets", "rebound_by_def", "del_ignored", "labels_merged", "unpacking_ignored"}
 
 
-def _is_classvar(ann: str, tg: set) -> bool:
-    return ann.split("[")[0] in ("ClassVar", "typing.ClassVar") and not ("bare_classvar" in tg and "[" not in ann)
+def _form(b: dict, tg: set) -> str | None:
+    """The special form an annotation stands for: CPython's reading, or (switch) the reading of the parsed expression."""
+    return b["parsed_form"] if "parsed_reading" in tg else b["form"]
+
+
+def _is_classvar(b: dict, tg: set) -> bool:
+    return _form(b, tg) == "ClassVar" and not ("bare_classvar" in tg and not b["subscripted"])
 
 
 def own_decls(cname: str, facts: dict, tg: set, cpv: dict) -> list[dict]:  # noqa: C901, PLR0912
@@ -508,18 +615,18 @@ def own_decls(cname: str, facts: dict, tg: set, cpv: dict) -> list[dict]:  # noq
         if kind in ("def", "class", "property"):
             s["attr"] = ("object", None)
             s["labels"] = {"property"} if kind == "property" else set()
-            s["carried_ann"] = b["ann"]     # a function / class member has no annotation to hand on (a property: its return annotation)
+            s["carried_ann"] = b if b["ann"] else None     # a function / class member has no annotation to hand on (a property: its return annotation)
             continue
         if kind == "ann":
             if s["first_ann"] is None:
                 s["first_ann"] = idx
-            s["ann"] = s["carried_ann"] = b["ann"]
+            s["ann"] = s["carried_ann"] = b
         if b["valued"]:
             s["attr"] = ("value", b["field_kwargs"])
         elif s["attr"] is not None and ("bare_forgets" if s["attr"][0] == "value" else "rebound_by_def") in tg:
             s["attr"] = None        # Griffe: the new attribute has no value (and a function / class never counted as one)
         # the labels Griffe's visitor gives the attribute of this statement, merged with those of the member it replaces
-        if kind == "ann" and _is_classvar(b["ann"], tg):
+        if kind == "ann" and _is_classvar(b, tg):
             s["labels"] |= {"class"}
         else:
             s["labels"] |= {"class", "instance"} if b["valued"] else {"instance"}
@@ -530,7 +637,7 @@ def own_decls(cname: str, facts: dict, tg: set, cpv: dict) -> list[dict]:  # noq
     marker = False
     for name, s in declared:
         ann = s["ann"]
-        if ann.endswith("KW_ONLY"):
+        if _form(ann, tg) == "KW_ONLY":
             marker = True
             continue
         if "rebound_by_def" in tg and (s["last"] in ("def", "class", "property") or s["carried_ann"] is None):
@@ -616,6 +723,8 @@ def classify(cname: str, g: dict, cpv: dict, facts: dict, rec) -> str | None:  #
     names = [n for n, f in SWITCHES if known_findings().get(f, {}).get("status") == "known"]
     if not any(rebound_fields(facts[k]) for k in cp["mro"]):
         names = [n for n in names if n not in REBIND_SWITCHES]      # they change nothing unless some name is bound twice in a body
+    if not any(f["form"] != f["parsed_form"] for k in cp["mro"] for f in facts[k]["fields"]):
+        names = [n for n in names if n != "parsed_reading"]
     for r in range(1, len(names) + 1):
         for combo in itertools.combinations(names, r):
             tg = set(combo)
@@ -670,16 +779,34 @@ def judge_case(rec, case: dict) -> None:  # noqa: ANN001, C901, PLR0912, PLR0915
                 rec.count("aliased_decorator_seen")
             rec.add_to_set("decorator_spellings", fc["dec_text"].split("(")[0] + ("()" if "(" in fc["dec_text"] else ""))
             for f in fc["fields"]:
-                if f["ann"].endswith("KW_ONLY"):
+                if f["form"] == "KW_ONLY":
                     rec.count("kw_only_marker_classes")
-                elif "InitVar" in f["ann"]:
+                elif f["form"] == "InitVar":
                     rec.count("initvar_fields_seen")
-                elif "ClassVar" in f["ann"]:
+                elif f["form"] == "ClassVar":
                     rec.count("classvar_fields_seen")
                 elif (f["field_kwargs"] or {}).get("init") == "False":
                     rec.count("field_init_false_seen")
         if cp["is_dc"] and any(cp["decorated"].get(b) for b in cp["mro"][1:]):
             accepted_dc_with_dc_parent = True
+        # how the annotations are spelled, in which evaluation mode
+        if fc["decorated"]:
+            if fc["postponed"]:
+                rec.count("classes_under_postponed_evaluation_compared")
+            for f in fc["fields"]:
+                mode = "postponed" if fc["postponed"] else "evaluated"
+                if f["quoted"]:
+                    rec.count("wholly_quoted_annotations_compared")
+                    if f["quoted_form"]:        # the literal spells ClassVar / InitVar / KW_ONLY: CPython decides whether it is one
+                        rec.count(f"quoted_special_form_annotations_{mode}_compared")
+                        rec.add_to_set("quoted_special_form_readings", f"{mode}: \"{f['quoted_form']}\" is {f['form'] or 'an ordinary type'}")
+                if f["aliased"]:
+                    rec.count("special_forms_through_module_or_name_alias_compared")
+                if not f["form"] and not f["quoted_form"] and re.search(r"ClassVar|InitVar|KW_ONLY", f["ann"]):
+                    rec.count("ordinary_annotations_mentioning_special_forms_compared")
+            if cp["own_init"] and fc["init_span"] is None and any(
+                    cp["decorated"].get(b) and facts[b]["postponed"] != fc["postponed"] for b in cp["mro"][1:]):
+                rec.count("generated_inits_mixing_evaluation_modes_compared")
         # names bound more than once in a class body: here, or in a dataclass this one inherits its fields from
         if fc["decorated"]:
             own_rebound = rebound_fields(fc)
@@ -687,7 +814,7 @@ def judge_case(rec, case: dict) -> None:  # noqa: ANN001, C901, PLR0912, PLR0915
                 rec.count("classes_with_rebound_field_compared")
                 if session:
                     rec.count("classes_with_rebound_field_in_sessions_compared")
-                marker_at = [i for i, b in enumerate(fc["bindings"]) if b["kind"] == "ann" and b["ann"].endswith("KW_ONLY")]
+                marker_at = [i for i, b in enumerate(fc["bindings"]) if b["kind"] == "ann" and b["form"] == "KW_ONLY"]
                 for bs in own_rebound.values():
                     rec.add_to_set("rebinding_forms", ">".join(binding_form(b) for b in bs))
                     if any(bs[0]["idx"] < m < bs[-1]["idx"] for m in marker_at):
@@ -708,7 +835,7 @@ def judge_case(rec, case: dict) -> None:  # noqa: ANN001, C901, PLR0912, PLR0915
                 rec.count("cross_package_generated_inits_compared")
                 # fields that are parameters but never members of the loaded class (init-only variables): nothing in the tree of
                 # the earlier package records them once that package has been processed
-                if any("InitVar" in f["ann"] for b in foreign_dc for f in facts[b]["fields"]):
+                if any(f["form"] == "InitVar" for b in foreign_dc for f in facts[b]["fields"]):
                     rec.count("cross_package_inherited_initvar_inits_compared")
             if foreign_dc and not cp["own_init"]:
                 rec.count("cross_package_inherited_inits_compared")
@@ -752,7 +879,7 @@ def judge_case(rec, case: dict) -> None:  # noqa: ANN001, C901, PLR0912, PLR0915
             problems.append((f"{cname}: Class.parameters differ from the signature of CPython's (effective) __init__", got, exp,
                              classify(cname, g, cpv, facts, rec)))
     nontrivial = accepted_dc_with_dc_parent and any(
-        f["ann"].endswith("KW_ONLY") or "kw_only" in (f["field_kwargs"] or {}) for fc in facts.values() for f in fc["fields"]) or (
+        f["form"] == "KW_ONLY" or "kw_only" in (f["field_kwargs"] or {}) for fc in facts.values() for f in fc["fields"]) or (
         accepted_dc_with_dc_parent and any("kw_only" in fc["dec_kwargs"] for fc in facts.values()))
     tags = ["two-modules"] if package == "pk" else ["multi-package"] if session else []
     if not problems:
